@@ -34,15 +34,35 @@ theorem foldl_g_fields (f : Ack → Ghost) : ∀ (acks : List Ack) (s : RState),
 
 theorem hnPre_fields (s : RState) (spec : ConnectSpec) :
     (hnPre s spec).datalog = s.datalog ∧ (hnPre s spec).notifications = s.notifications ∧
-    (hnPre s spec).shared = s.shared ∧ (hnPre s spec).graveyard = aremove spec.clientId s.graveyard := by
+    (hnPre s spec).shared =
+      rejoinGroups s.config.strategy spec.clientId (hnTracker spec (hnRestored s spec)).requests s.shared ∧
+    (hnPre s spec).graveyard = aremove spec.clientId s.graveyard := by
   have e := hnWill_fields { s with graveyard := aremove spec.clientId s.graveyard } spec
+  have ec := (hnWill_core { s with graveyard := aremove spec.clientId s.graveyard } spec).2.1
   unfold hnPre
   simp only []
   refine ⟨?_, ?_, ?_, ?_⟩
   · rw [(foldl_g_fields _ _ _).1]; split <;> exact e.1
   · rw [(foldl_g_fields _ _ _).2.1]; split <;> exact e.2.1
-  · rw [(foldl_g_fields _ _ _).2.2.1]; split <;> exact e.2.2.1
+  · rw [(foldl_g_fields _ _ _).2.2.1]
+    split <;>
+    · show rejoinGroups _ _ _ _ = _
+      rw [ec, e.2.2.1]
   · rw [(foldl_g_fields _ _ _).2.2.2]; split <;> exact e.2.2.2
+
+/-- a resumed session rejoining its groups leaves no group empty -/
+theorem rejoinGroups_nonempty (st : Strategy) (client : String) : ∀ (rs : List DataRequest)
+    (sh : List (String × SharedGroup)), (∀ p ∈ sh, p.2.clients ≠ []) →
+    ∀ p ∈ rejoinGroups st client rs sh, p.2.clients ≠ []
+  | [], sh, h => h
+  | r :: rest, sh, h => by
+    simp only [rejoinGroups]
+    split
+    · exact rejoinGroups_nonempty st client rest sh h
+    · refine rejoinGroups_nonempty st client rest _ fun p hp => ?_
+      rcases mem_ainsert hp with hp | rfl
+      · exact h p hp
+      · simp
 
 /-- the tracker of a new connection: valid requests, `Paused(Busy)` -/
 theorem hnTracker_ok {s : RState} (h : DInv s) (spec : ConnectSpec) :
@@ -101,7 +121,7 @@ theorem hnRegister_good {s : RState} {spec : ConnectSpec} (hnc : spec.clean = fa
       · rw [hN, f1]; intro fd hfd w hw; exact ⟨(h.1.wt fd hfd w hw).1, hlive _ (h.1.wt fd hfd w hw).2⟩
       · rw [f2, h.2]; intro n hn; simp at hn
       · rw [hN, f4]; intro p hp ss hss; exact h.1.grv p (mem_aremove hp) ss hss
-      · rw [f3]; exact h.1.grp
+      · rw [f3]; exact rejoinGroups_nonempty _ _ _ _ h.1.grp
     refine (reschedule_good hd hnew' (fun _ => tb)).mono fun s' q => ⟨q.1, ?_⟩
     rw [q.2, f2]; exact h.2
 
